@@ -179,3 +179,20 @@ class Driver:
             raise RuntimeError(f'driver answered {len(lines)} lines for {len(reqs)} requests; rc={p.returncode}; '
                                f'stderr={p.stderr.decode("utf-8", "replace")[-2000:]}')
         return [json.loads(x) for x in lines]
+
+
+def batch_nl(driver, reqs, timeout=3000):
+    """(added for C02) like Driver.batch, but the answer is cut at b'\\n' only: `str.splitlines()` also cuts at U+0085,
+    U+2028, U+2029 and \\x0b \\x0c \\x1c-\\x1e, which the Lean JSON printer emits unescaped inside strings"""
+    if not reqs:
+        return []
+    data = ''.join(json.dumps(r, ensure_ascii=False, separators=(',', ':')) + '\n' for r in reqs)
+    p = subprocess.run([driver.path], input=data.encode('utf-8', 'surrogatepass'), stdout=subprocess.PIPE,
+                       stderr=subprocess.PIPE, timeout=timeout)
+    lines = p.stdout.split(b'\n')
+    if lines and lines[-1] == b'':
+        lines.pop()
+    if len(lines) != len(reqs):
+        raise RuntimeError(f'driver answered {len(lines)} lines for {len(reqs)} requests; rc={p.returncode}; '
+                           f'stderr={p.stderr.decode("utf-8", "replace")[-2000:]}')
+    return [json.loads(x.decode('utf-8', 'replace')) for x in lines]
